@@ -87,6 +87,7 @@ struct Conn {
 #[derive(Default)]
 struct Req {
     finish: bool,
+    panic: bool,
     hold_waker: Option<Waker>,
     holding: Option<usize>,
 }
@@ -295,13 +296,21 @@ struct HoldFut {
     w: W,
     rid: usize,
     cid: usize,
-    _pooled: Pooled<HC, B>,
+    pooled: Option<Pooled<HC, B>>,
 }
 impl Future for HoldFut {
     type Output = Result<http::Response<B>, hyperdriver::client::Error>;
     fn poll(self: Pin<&mut Self>, cx: &mut Context<'_>) -> Poll<Self::Output> {
-        let mut w = self.w.lock().unwrap();
-        let r = &mut w.reqs[self.rid];
+        let this = self.get_mut();
+        let boom = this.w.lock().unwrap().reqs[this.rid].panic;
+        if boom {
+            // the task holding the connection panics: the handle is a local of the panicking frame, so it is dropped
+            // DURING unwinding (std::thread::panicking() is true inside Pooled::drop)
+            let _held = this.pooled.take();
+            panic!("scripted panic of the request holding the connection");
+        }
+        let mut w = this.w.lock().unwrap();
+        let r = &mut w.reqs[this.rid];
         if r.finish {
             Poll::Ready(Ok(http::Response::new(Empty::new())))
         } else {
@@ -342,7 +351,7 @@ impl tower::Service<ExecuteRequest<Pooled<HC, B>, B>> for Svc {
         }
         w.conns[cid].holders += 1;
         w.reqs[rid].holding = Some(cid);
-        HoldFut { w: self.w.clone(), rid, cid, _pooled: pooled }
+        HoldFut { w: self.w.clone(), rid, cid, pooled: Some(pooled) }
     }
 }
 
@@ -442,6 +451,26 @@ async fn run_case(line: String) -> String {
             "X" => {
                 let r: usize = rest.parse().unwrap();
                 if let Some(slot) = futs.get_mut(r) {
+                    *slot = None;
+                    flags[r].0.store(false, Ordering::SeqCst);
+                }
+            }
+            "Z" => {
+                // like X, but a request that holds a connection is ended by a PANIC inside its future (the handle is
+                // dropped during unwinding) instead of a plain drop: must make no difference
+                let r: usize = rest.parse().unwrap();
+                let holding = w.lock().unwrap().reqs.get(r).map(|q| q.holding.is_some()).unwrap_or(false);
+                if let Some(slot) = futs.get_mut(r) {
+                    if holding {
+                        w.lock().unwrap().reqs[r].panic = true;
+                        if let Some(f) = slot.as_mut() {
+                            let waker = Waker::from(flags[r].clone());
+                            let mut cx = Context::from_waker(&waker);
+                            let _ = std::panic::catch_unwind(std::panic::AssertUnwindSafe(|| {
+                                let _ = f.as_mut().poll(&mut cx);
+                            }));
+                        }
+                    }
                     *slot = None;
                     flags[r].0.store(false, Ordering::SeqCst);
                 }
